@@ -579,7 +579,7 @@ func c04Fan(c *Ctx) error {
 				Input:  map[string]interface{}{"chunks": sizes, "eofWithLast": eofWithLast, "reqs": reqs[k], "reader": k},
 				Obs:    map[string]interface{}{"reads": gotN[k]},
 				Oracle: oracle,
-				Coq: fmt.Sprintf("($ID%%N, %d%%nat, %s, %s, %s, %s)", c04FanSlice, coqWrites(sizes), lib.CoqBool(eofWithLast), coqWrites(reqs[k]),
+				Coq: fmt.Sprintf("($ID%%N, %d%%N, %s, %s, %s, %s)", c04FanSlice, coqWrites(sizes), lib.CoqBool(eofWithLast), coqWrites(reqs[k]),
 					coqWrites(gotN[k]))})
 		}
 	}
@@ -929,7 +929,7 @@ func c04Groups(si *pwr.SignatureInfo, want []c04Hash) (string, string) {
 
 func c04Builds(c *Ctx) error {
 	r := c.Rng.Fork()
-	n := c.N(100, 1000)
+	n := c.N(60, 600)
 	thorough := c.Thorough()
 	for i := 0; i < n; i++ {
 		cr := r.Fork()
@@ -1158,7 +1158,11 @@ func c04Builds(c *Ctx) error {
 				tot += len(rle)
 				fs = append(fs, rle.Coq())
 			}
-			if tot < 400 {
+			limit := int64(3*bs64 + 2) // model evaluation cost grows with the bytes hashed
+			if thorough {
+				limit = 7*bs64 + 2
+			}
+			if tot < 400 && walked.Size <= limit {
 				gh, _ := c04FromWsync(si.Hashes)
 				cs.Group = "sig"
 				cs.Coq = fmt.Sprintf("($ID%%N, %s, %s, %s)", lib.CoqList(fs), c04HashesCoq(gh), groupsCoq)
